@@ -2,7 +2,7 @@
    provider's multicast responses holds, after every handler invocation of every history, exactly the records the
    provider serves (and nothing once it is destroyed); and what it serves when nothing is pending is what was last
    requested. *)
-From QV Require Import Base Fields SrcFacts Msg SrcDecisions Cache CacheSpec CacheProofs Sim Prober Hostname HostnameInv Provider ProviderProofs.
+From QV Require Import Base Fields SrcFacts Msg SrcDecisions Cache CacheSpec CacheProofs Sim Prober Hostname HostnameProofs HostnameInv Provider ProviderProofs.
 From Coq Require Import ZifyBool ZifyNat ZifyN.
 Local Open Scope Z_scope.
 
@@ -250,7 +250,7 @@ Proof.
       intros m0 [H|[]]. discriminate.
   - destruct (tid =? T_REG)%N.
     + cbn [snd]. intros m H. apply in_app_iff in H as [H|[H|[]]]; [|discriminate].
-      destruct (bytes_eqb (h_name h) (h_prev h)); [destruct H|destruct H as [H|[]]; discriminate].
+      rewrite ?host_announce_old in *. destruct (bytes_eqb (h_name h) (h_prev h)); [destruct H|destruct H as [H|[]]; discriminate].
     + apply assert_hostname_silent.
   - apply silent_nil.
 Qed.
@@ -284,7 +284,7 @@ Proof.
     + destruct (negb (h_reg h)); [destruct Hin|]. destruct (host_answers h (m_addr m) (m_queries m)); [destruct Hin|]. destruct Hin as [X|[]]. discriminate.
   - destruct (tid =? T_REG)%N.
     + cbn [snd] in Hin. apply in_app_iff in Hin as [Hin|[Hin|[]]]; [|discriminate].
-      destruct (bytes_eqb (h_name h) (h_prev h)); [destruct Hin|]. destruct Hin as [X|[]]. injection X as _ _ <-. exact H.
+      rewrite ?host_announce_old in *. destruct (bytes_eqb (h_name h) (h_prev h)); [destruct Hin|]. destruct Hin as [X|[]]. injection X as _ _ <-. exact H.
     + unfold on_rebroadcast, assert_hostname in Hin. cbn in Hin. destruct Hin as [X|[X|[]]]; discriminate.
   - destruct Hin.
 Qed.
